@@ -758,7 +758,8 @@ int NinjaMain::ToolWinCodePage(const Options* options, int argc, char* argv[]) {
 #endif
 
 enum PrintCommandMode { PCM_Single, PCM_All };
-void PrintCommands(Edge* edge, EdgeSet* seen, PrintCommandMode mode) {
+void PrintCommands(Edge* edge, EdgeSet* seen, PrintCommandMode mode,
+                   vector<Edge*>* validations) {
   if (!edge)
     return;
   if (!seen->insert(edge).second)
@@ -767,18 +768,22 @@ void PrintCommands(Edge* edge, EdgeSet* seen, PrintCommandMode mode) {
   if (mode == PCM_All) {
     for (vector<Node*>::iterator in = edge->inputs_.begin();
          in != edge->inputs_.end(); ++in)
-      PrintCommands((*in)->in_edge(), seen, mode);
+      PrintCommands((*in)->in_edge(), seen, mode, validations);
   }
 
   if (!edge->is_phony())
     puts(edge->EvaluateCommand().c_str());
 
   if (mode == PCM_All) {
-    // Building this edge also builds its validations; they may depend on the
-    // edge's outputs, so they come after it.
+    // Building this edge also builds its validations. They may depend on the
+    // edge's outputs, and on anything built from them -- also on an edge whose
+    // inputs are being walked right now and that is not printed yet -- so the
+    // caller walks them once the walk from the targets is complete.
     for (vector<Node*>::iterator v = edge->validations_.begin();
-         v != edge->validations_.end(); ++v)
-      PrintCommands((*v)->in_edge(), seen, mode);
+         v != edge->validations_.end(); ++v) {
+      if ((*v)->in_edge())
+        validations->push_back((*v)->in_edge());
+    }
   }
 }
 
@@ -818,8 +823,12 @@ int NinjaMain::ToolCommands(const Options* options, int argc, char* argv[]) {
   }
 
   EdgeSet seen;
+  vector<Edge*> validations;
   for (vector<Node*>::iterator in = nodes.begin(); in != nodes.end(); ++in)
-    PrintCommands((*in)->in_edge(), &seen, mode);
+    PrintCommands((*in)->in_edge(), &seen, mode, &validations);
+  // (walking a validation may add further ones)
+  for (size_t i = 0; i < validations.size(); ++i)
+    PrintCommands(validations[i], &seen, mode, &validations);
 
   return 0;
 }
